@@ -232,8 +232,9 @@ Proof.
   repeat match goal with
          | |- context [canonical_decimal ?s] => destruct (canonical_decimal s)
          | |- context [8 <=? ?n] => destruct (8 <=? n)
-         | |- context [(?n <=? max_tmo lim) && (1 <=? ?n)] =>
-             rewrite (andb_comm (n <=? max_tmo lim) (1 <=? n)); destruct ((1 <=? n) && (n <=? max_tmo lim))
+         | |- context [(?n * TICKS_PER_SECOND <=? max_tmo lim) && (1 <=? ?n)] =>
+             rewrite (andb_comm (n * TICKS_PER_SECOND <=? max_tmo lim) (1 <=? n));
+             destruct ((1 <=? n) && (n * TICKS_PER_SECOND <=? max_tmo lim))
          | |- context [str_eqb ?s (lit "0")] => destruct (str_eqb s (lit "0"))
          end;
   destruct na; try reflexivity; destruct k as [sz ps|sz ps [|]|]; reflexivity.
@@ -272,9 +273,9 @@ Qed.
 (* timeout: echoed unchanged and used iff decimal within [1, max_timeout]; otherwise the default is used *)
 Theorem timeout_rule lim na k opts :
   let r := negotiate ncurrent lim na k opts in
-  (forall n, requested opts (lit "timeout") = Some (dec n) -> 1 <= n <= max_tmo lim ->
-     oack_get r "timeout" = requested opts (lit "timeout") /\ n_tmo r = n) /\
-  ((forall n, 1 <= n <= max_tmo lim -> requested opts (lit "timeout") <> Some (dec n)) ->
+  (forall n, requested opts (lit "timeout") = Some (dec n) -> 1 <= n /\ n * TICKS_PER_SECOND <= max_tmo lim ->
+     oack_get r "timeout" = requested opts (lit "timeout") /\ n_tmo r = n * TICKS_PER_SECOND) /\
+  ((forall n, 1 <= n /\ n * TICKS_PER_SECOND <= max_tmo lim -> requested opts (lit "timeout") <> Some (dec n)) ->
      oack_get r "timeout" = None /\ n_tmo r = default_tmo lim).
 Proof.
   cbv zeta. unfold oack_get. rewrite negotiate_is_spec, spec_get_timeout.
@@ -284,7 +285,7 @@ Proof.
     rewrite E. apply N.leb_le in Hn1, Hn2. rewrite Hn1, Hn2. split; reflexivity.
   - intros H. destruct (requested opts (lit "timeout")) as [s|]; [|split; reflexivity].
     destruct (canonical_decimal s) as [n|] eqn:E; [|split; reflexivity].
-    destruct ((1 <=? n) && (n <=? max_tmo lim)) eqn:E8; [|split; reflexivity].
+    destruct ((1 <=? n) && (n * TICKS_PER_SECOND <=? max_tmo lim)) eqn:E8; [|split; reflexivity].
     apply canonical_decimal_iff in E as [_ E]. apply andb_true_iff in E8 as [A B]. apply N.leb_le in A, B.
     exfalso. apply (H n (conj A B)). now rewrite E.
 Qed.
@@ -338,7 +339,7 @@ Proof.
     destruct H as [H|[]]. injection H as <- _. eauto.
   - destruct (requested opts (lit "timeout")) as [s|] eqn:E; [|destruct H].
     apply requested_in in E as [k0 [A B]].
-    destruct (canonical_decimal s); [|destruct H]. destruct ((1 <=? n) && (n <=? max_tmo lim)); [|destruct H].
+    destruct (canonical_decimal s); [|destruct H]. destruct ((1 <=? n) && (n * TICKS_PER_SECOND <=? max_tmo lim)); [|destruct H].
     destruct H as [H|[]]. injection H as <- _. eauto.
   - destruct (requested opts (lit "tsize")) as [s|] eqn:E; [|destruct H].
     apply requested_in in E as [k0 [A B]].
@@ -356,7 +357,7 @@ Theorem blksize_rule_refuted_D2 :
     requested opts (lit "blksize") = Some (dec 1400) /\ 8 <= 1400 /\
     oack_get (negotiate nv_D2 lim na k opts) "blksize" <> Some (dec (N.min 1400 (max_bs lim))).
 Proof.
-  exists {| max_bs := 1024; max_tmo := 30; default_tmo := 2 |}, false, KNoFileno, [(lit "blksize", lit "1400")].
+  exists {| max_bs := 1024; max_tmo := 30720; default_tmo := 2048 |}, false, KNoFileno, [(lit "blksize", lit "1400")].
   split; [reflexivity|]. split; [lia|]. vm_compute. discriminate.
 Qed.
 
@@ -366,14 +367,14 @@ Theorem tsize_rule_refuted_D3_offset :
     requested opts (lit "tsize") = Some (lit "0") /\ size_known k = Some sz /\
     oack_get (negotiate nv_D3 lim false k opts) "tsize" <> Some (dec sz).
 Proof.
-  exists {| max_bs := 1024; max_tmo := 30; default_tmo := 2 |}, (KRealFile 10 4 true), [(lit "tsize", lit "0")], 6.
+  exists {| max_bs := 1024; max_tmo := 30720; default_tmo := 2048 |}, (KRealFile 10 4 true), [(lit "tsize", lit "0")], 6.
   split; [reflexivity|]. split; [reflexivity|]. vm_compute. discriminate.
 Qed.
 Theorem tsize_rule_refuted_D3_pipe :
   exists lim k opts,
     size_known k = None /\ oack_get (negotiate nv_D3 lim false k opts) "tsize" <> None.
 Proof.
-  exists {| max_bs := 1024; max_tmo := 30; default_tmo := 2 |}, (KRealFile 0 0 false), [(lit "tsize", lit "0")].
+  exists {| max_bs := 1024; max_tmo := 30720; default_tmo := 2048 |}, (KRealFile 0 0 false), [(lit "tsize", lit "0")].
   split; [reflexivity|]. vm_compute. discriminate.
 Qed.
 
